@@ -2,15 +2,16 @@
 (* Growth item X08, contract layer (operators only): the DoIP discovery scanner `discover doip`.
 
    Statement (growth/X08.json):
-   "Given the gateway's host and port, `discover doip` reports as valid routing activation exactly the
-    (activation type, source address) combinations of the candidate space that the gateway answers with
-    the success code, and goes on only with exactly one of them.  It then sends a UDS TesterPresent request
-    with that fixed source address to every target address of the configured range and reports an address as
-    valid exactly if the gateway acknowledged the request positively, as unreachable exactly if it was
-    refused with TargetUnreachable, and as found (responsive) exactly if a UDS answer from that address
-    arrives -- not if the gateway refuses the request, stays silent or drops the connection; a dropped
-    connection or a timeout is survived (reconnect) and the scan terminates.  Every emitted target URI
-    parses back (TargetURI + DoIPConfig) to the scanned host, port, activation type, source and target address."
+   "Given the gateway's host and port, `discover doip` reports as valid routing activation exactly the (activation
+    type, source address) combinations of the candidate space that the gateway answers with the success code 0x10,
+    and continues only with exactly one of them. It then sends a UDS TesterPresent request with that fixed source
+    address (on a connection activated with that activation type) to every target address of the configured range
+    and reports an address as valid exactly if the gateway acknowledged the request positively, as unreachable
+    exactly if it was refused with TargetUnreachable, and as found (responsive; artifact file and database) exactly
+    if a UDS answer - positive or negative - from that address arrives within the DoIP diagnostic message time, not
+    if the gateway refuses the request, stays silent or drops the connection; timeouts and dropped connections are
+    survived by reconnecting and the scan terminates. Every emitted target URI parses back through TargetURI and
+    DoIPConfig to the scanned host, port, activation type, source address and target address."
 
    Sources of the clauses (documented behaviour only):
      RA1/RA2  class docstring of DoIPDiscoverer ("automatically enumerates allowed RoutingActivationTypes and known
@@ -56,7 +57,7 @@
      O.anss  set of [a, to, d, dt, dl]     diagnostic messages sent by the gateway: source a, target `to`
      O.repRa set of <<rat, src>>;  O.repValid, O.repResp, O.repDb, O.repUnreach, O.errs  sets of target addresses
      O.uris  set of [ok, host, port, src, rat, ver]   every emitted URI parsed back by the real TargetURI/DoIPConfig
-     O.vers  protocol versions of the frames the scanner sent;   O.done  "ok" | "exit<N>" | "exc" | "hang"       *)
+     O.vers  protocol versions of the frames the scanner sent;   O.done  "ok" | "stopped" (main() ended the run with a non-zero exit) | "exc" | "hang"       *)
 EXTENDS Naturals, Integers, Sequences, FiniteSets
 
 AckTime         == 2000   \* ISO 13400-2 A_DoIP_Diagnostic_Message
@@ -75,10 +76,10 @@ Sweep(O)   == O.cfg.start..O.cfg.stop
 \* harness self-check: the gateway fake answered as its model says
 M0_FakeConsistent(O) == O.ra \subseteq O.acc
 
-T0_Terminates(O)  == O.done \in {"ok", "exit20"}
+T0_Terminates(O)  == O.done \in {"ok", "stopped"}
 RA1_Sound(O)      == O.repRa \subseteq O.ra
 RA2_Complete(O)   == \A p \in O.acc : (p[1] \in CandRat(O) /\ p[2] \in CandSrc(O)) => p \in O.repRa
-RA3_Gate(O)       == IF Cardinality(O.repRa) = 1 THEN O.done # "exit20" ELSE O.done = "exit20" /\ O.reqs = {}
+RA3_Gate(O)       == IF Cardinality(O.repRa) = 1 THEN O.done # "stopped" ELSE O.done = "stopped" /\ O.reqs = {}
 
 Probed(O) == {q.dst : q \in {r \in O.reqs : r.act /\ r.src \in Tester(O) /\ r.d = TesterPresent}}
 TA1_EveryAddressTried(O) == O.done = "ok" => \A a \in Sweep(O) : a \in Probed(O) \/ a \in O.errs
